@@ -5,6 +5,10 @@ HERE = os.path.dirname(os.path.dirname(os.path.abspath(__file__)))
 ALL = ["C%02d" % i for i in range(1, 21)]
 # id -> (technique, level text, level note, design ref)
 CHECKS = {
+ "C04": ("stateless model checking under the controlled transport scheduler: a destination-state invariant evaluated at every scheduling point of every execution within the deviation bound, and a connection cut injected at every scheduling point; plus a kernel (inotify) event-trace monitor for the instants between transport operations",
+         "library pull, daemon pull and daemon upload of a multi-file tree (new file, delta-replaced file, replaced file, replaced symlink, new symlink) at capacities inf, 7 (receiver frozen every 7 bytes) and 0 with <=1 (thorough <=2) deviations: every listed path holds complete old or complete new content at ~2 million observed states, cutting the connection at each of ~3400 points never yields success with an incomplete destination, and no temp file survives the return of both ends; the inotify trace of all 5 arrangements shows rename-into-place only",
+         "crash/kill instants are modelled by freezing the receiver at transport gates plus the inotify trace (no in-place event on a listed name means every intermediate on-disk state is old-or-new); power-loss durability (fsync ordering) is not examined",
+         "DESIGN.md §5 C04"),
  "C18": ("stateless model checking of the real client and server under a controlled transport scheduler (testing/synctest quiescence + gate transport): deviation-bounded DFS over all completion orders, partial transfers and capacities; structural deadlock detection; separate free-running race-detector pass",
          "arrangements {lib-pull, lib-push, daemon-pull, daemon-push} x capacities {0,1,7,65536,inf}^2 (quick: {0,7,65536,inf}^2 + (1,1)) x trees {tiny, many-tiny, huge-literal, huge-sum-list, failing-receiver} with <=1 (thorough <=2) deviations; two sessions on one Server (pull||pull, pull||upload, upload||upload distinct/identical target) interleaved at operation granularity; local copy inside a bubble; 2..8 (thorough ..32) concurrent sessions under -race with GOMAXPROCS 1..16. Every execution must finish (no enabled operation while unfinished = deadlock) with the deviation-free / solo outcome",
          "scheduling points are transport operations (file-system syscalls are not interleaved); the local arrangement's internal io.Pipe is outside the scheduler's control (its failing-receiver behaviour is covered through lib-push at capacity 0); data races are only visible to the free-running part",
